@@ -272,6 +272,20 @@ def cn_shared(e):
     return False
 
 
+def cn_nonsquare(e):
+    """some left / right factor is not square (the recorded LinearOperator shape is then stale)"""
+    t = e[0]
+    if t == 'CBase':
+        return False
+    if t == 'CLeft':
+        return e[1]['shape'][0] != e[1]['shape'][1] or cn_nonsquare(e[2])
+    if t == 'CRight':
+        return e[2]['shape'][0] != e[2]['shape'][1] or cn_nonsquare(e[1])
+    if t == 'CMul':
+        return cn_nonsquare(e[2])
+    return cn_nonsquare(e[1])
+
+
 def cn_defect(e):
     """first defective CoNeighbor site the expression goes through: (site, kind) or None"""
     t = e[0]
@@ -455,7 +469,7 @@ def run(ctx, scratch):
 
 
 def run_operators(ctx, impl, rng, quick, dmax, depth_max, notes):
-    n_cases = 1500 if quick else 6000
+    n_cases = 1500 if quick else 9000
     cases = []
     profiles = [(dmax, depth_max)] if quick else [(7, depth_max), (dmax, 3), (dmax, 2)]
     for k in range(n_cases):
@@ -518,7 +532,8 @@ def run_operators(ctx, impl, rng, quick, dmax, depth_max, notes):
         elif 'err' in d or not vclose(fl(m_dot[0]), d['ok']):
             ctx.violation('model_vs_impl', 'operator.dot(x): implementation differs from the model', case=case,
                           expected=fl(m_dot[0]), observed=d, cls=op['cls'], part='dot')
-        stale = dkind == 'stale_shape' or site == 'Normalizer._transpose'   # shapes are off there: only the 1-D product is compared
+        # where the recorded shape is off only the 1-D product is compared
+        stale = site == 'Normalizer._transpose' or (op['cls'] == 'cn' and cn_nonsquare(op['e']))
         if not stale:
             for part in ('mv2', 'dotm'):
                 o = out[part]
@@ -615,7 +630,7 @@ def rows_val(v):
 
 
 def run_utils(ctx, impl, rng, quick, dmax):
-    nU = 120 if quick else 600
+    nU = 120 if quick else 900
 
     def coq(tag, exprs):
         return unq(coq_eval('c15' + tag, IMPORTS, exprs, prelude=PRELUDE, shard=100, timeout=900)) if exprs else []
